@@ -17,6 +17,9 @@ Mirrors the code loop for loop, array for array:
 * `voteUpdate`  : the kernel: `votes` sized by the largest label + 1, then the sweep over `index`;
 * `instantiateVars`, `reorder`, `propLoop`, `fit` : `Propagation._instantiate_vars`, the node orders,
                   the stopping loop and `Propagation.fit`.
+`Propagation.fit` runs the sweeps on the seed labels compacted to `0 … k-1` (`np.unique(…, return_inverse=True)`, repo commit
+b75478a7) and maps them back before `labels_` / `probs_`; the relabelling preserves the order of the labels, hence the tie rule
+(`vote_update_node_exact`: smallest label of maximal vote), so the model iterates on the given label values.
 The scalar is `Rat`: the harness sends integer / dyadic weights, for which the kernel's float32 sums are exact.
 
 `Pinned.voteUpdate?` is the kernel as it was before the repair of defect F2 (kept for the witness of
